@@ -11,23 +11,6 @@
 #include <tins/pktap.h>
 #include <tins/detail/pdu_helpers.h>
 
-// the (buffer, size) constructor of the class with the given type flag
-static PDU* construct(PDU::PDUType t, const uint8_t* p, uint32_t n) {
-    switch (t) {
-#define CT(FLAG, CLS) case PDU::FLAG: return new CLS(p, n);
-    CT(ETHERNET_II, EthernetII) CT(IEEE802_3, Dot3) CT(IP, IP) CT(IPv6, IPv6) CT(ARP, ARP) CT(TCP, TCP) CT(UDP, UDP) CT(ICMP, ICMP) CT(ICMPv6, ICMPv6)
-    CT(DNS, DNS) CT(DHCP, DHCP) CT(BOOTP, BootP) CT(DHCPv6, DHCPv6) CT(RTP, RTP) CT(VXLAN, VXLAN) CT(SNAP, SNAP) CT(LLC, LLC) CT(STP, STP) CT(SLL, SLL)
-    CT(LOOPBACK, Loopback) CT(MPLS, MPLS) CT(DOT1Q, Dot1Q) CT(DOT1AD, Dot1Q) CT(IPSEC_AH, IPSecAH) CT(IPSEC_ESP, IPSecESP) CT(RSNEAPOL, RSNEAPOL) CT(RC4EAPOL, RC4EAPOL)
-    CT(PPPOE, PPPoE) CT(RADIOTAP, RadioTap) CT(PPI, PPI) CT(PKTAP, PKTAP) CT(RAW, RawPDU)
-    CT(DOT11, Dot11) CT(DOT11_DATA, Dot11Data) CT(DOT11_QOS_DATA, Dot11QoSData) CT(DOT11_BEACON, Dot11Beacon) CT(DOT11_PROBE_REQ, Dot11ProbeRequest) CT(DOT11_PROBE_RESP, Dot11ProbeResponse)
-    CT(DOT11_ASSOC_REQ, Dot11AssocRequest) CT(DOT11_ASSOC_RESP, Dot11AssocResponse) CT(DOT11_REASSOC_REQ, Dot11ReAssocRequest) CT(DOT11_REASSOC_RESP, Dot11ReAssocResponse)
-    CT(DOT11_AUTH, Dot11Authentication) CT(DOT11_DEAUTH, Dot11Deauthentication) CT(DOT11_DIASSOC, Dot11Disassoc) CT(DOT11_RTS, Dot11RTS) CT(DOT11_PS_POLL, Dot11PSPoll)
-    CT(DOT11_CF_END, Dot11CFEnd) CT(DOT11_END_CF_ACK, Dot11EndCFAck) CT(DOT11_ACK, Dot11Ack) CT(DOT11_BLOCK_ACK_REQ, Dot11BlockAckRequest) CT(DOT11_BLOCK_ACK, Dot11BlockAck)
-#undef CT
-    default: return 0;
-    }
-}
-
 static long OVERWRITES = 0; static int OVERWRITE_TYPE = 0;
 static void count_overwrite(int type, long) { ++OVERWRITES; OVERWRITE_TYPE = type; }
 struct Res { std::string outcome, what; TouchStat ts; };
